@@ -647,11 +647,13 @@ func (w *World) Flush() {
 	}
 	_ = mark
 	before := StoreSize(w.St)
+	nf := len(w.FaultOps)
 	err := w.St.Flush()
 	if w.faulted(label, err, true, false) {
 		w.File.LogOn = false
 		return
 	}
+	swallowed := len(w.FaultOps) != nf
 	w.logf("%s=%s", label, errs(err))
 	if w.NoFile {
 		if err == nil {
@@ -693,6 +695,11 @@ func (w *World) Flush() {
 	w.M.Flush(end)
 	if w.Mon.Format {
 		w.checkFormat(w.File.Log, before, after)
+	}
+	if swallowed {
+		// Flush said nil although a file call failed: what it claims to have
+		// made durable is checked at once (a later Flush may repair the file)
+		w.CheckDurable()
 	}
 }
 
@@ -1432,11 +1439,27 @@ func (w *World) faulted(label string, err error, hasErr bool, gotData bool) bool
 	lf := w.File.LastFault
 	what := fmt.Sprintf("%s call #%d (offset %d, %d bytes, %d applied)", map[string]string{"R": "ReadAt", "W": "WriteAt", "S": "Stat", "T": "Truncate"}[lf.Op], lf.Seq, lf.Off, lf.Len, len(lf.Data))
 	if hasErr && err == nil {
+		// C07 is told; for every other oracle the call succeeded (that is what
+		// it reported), so the caller goes on along the success path and the
+		// consequences of the swallowed failure are judged by the oracles of
+		// the properties they belong to (durability, contents, aggregates, ...)
 		w.Fail("fault", "swallowed-in-"+opKind(label), "%s reported success although the file failed %s", label, what)
+		w.logf("%s=FAULT-SWALLOWED", label)
+		return false
 	}
 	if gotData {
 		w.Fail("fault", "data-with-error-in-"+opKind(label), "%s returned data alongside the failure of %s", label, what)
 	}
 	w.logf("%s=FAULT", label)
+	return true
+}
+
+// OnlySwallowed reports whether every violation so far is a swallowed fault.
+func (w *World) OnlySwallowed() bool {
+	for _, v := range w.Viols {
+		if !strings.HasPrefix(v.Sig, "fault:swallowed-in-") {
+			return false
+		}
+	}
 	return true
 }
